@@ -1,0 +1,5 @@
+//go:build !verif
+
+package directive
+
+func verifYield(string) {}
